@@ -30,3 +30,18 @@ Theorem C11_quiescent_no_stopping : forall t,
   well_formed t -> lquiescent t = true -> forall i, i < nnodes t -> state_of t i <> LStopping.
 Proof. exact quiescent_no_stopping. Qed.
 Print Assumptions C11_quiescent_no_stopping.
+
+(* sideways isolation at the level of channel operations (PubLts.v): closing a
+   subscription, the exit of its goroutine, its removal from the publisher's
+   table and a send to it that fails leave every sibling untouched; and a send
+   fails only at a subscription that was closed *)
+From KC Require Import PubLts PubLtsProps.
+Theorem C11_lts_step_is_local : forall (E : Type) (p : cpub E) a p' i j, cstep p a = Some p' -> concerns E a = Some i -> i <> j ->
+  nth_error (k_subs p') j = nth_error (k_subs p) j.
+Proof. exact step_is_local. Qed.
+Print Assumptions C11_lts_step_is_local.
+
+Theorem C11_send_fails_only_when_closing : forall (E : Type) (p : cpub E) i p', cstep p (CSendFail i) = Some p' ->
+  exists c, nth_error (k_subs p) i = Some c /\ c_phase c <> Open.
+Proof. exact send_fails_only_when_closing. Qed.
+Print Assumptions C11_send_fails_only_when_closing.
